@@ -39,6 +39,16 @@ func newExec(p *Program, fc *FuncContract) *Exec {
 	if v, ok := fc.Opts["inline"]; ok {
 		fmt.Sscanf(v, "%d", &x.maxInline)
 	}
+	if v, ok := fc.Opts["allocbudget"]; ok {
+		// make() sizes must be bounded by a*consumed + b (consumed = ghost count of input bytes read)
+		var a, c int64 = 64, 4096
+		fmt.Sscanf(v, "%d %d", &a, &c)
+		x.allocBudget = func(bc *blockCtx, n *smt.Term) *smt.Term {
+			x.registerGhost("G_consumed")
+			cons := x.getHeap(bc.st, "G_consumed")
+			return x.b.Cmp("<=", n, x.b.Add(x.b.Mul(x.b.Int(a), cons), x.b.Int(c)))
+		}
+	}
 	return x
 }
 
@@ -83,7 +93,7 @@ func (p *Program) VerifyFunc(fc *FuncContract) (res *FuncResult) {
 	env := newEnv(nil)
 	vars := map[string]*Val{}
 	st := newState()
-	for _, prm := range f.Params {
+	for pi, prm := range f.Params {
 		v := x.havoc(prm.Type(), "p_"+prm.Name(), x.b.True)
 		if _, ok := prm.Type().Underlying().(*types.Pointer); ok {
 			x.paramRefs = append(x.paramRefs, v.T)
@@ -95,6 +105,12 @@ func (p *Program) VerifyFunc(fc *FuncContract) (res *FuncResult) {
 		}
 		env.vals[prm] = v
 		vars[prm.Name()] = v
+		if pi == 0 && f.Signature.Recv() != nil && fc.Safety {
+			if _, ok := prm.Type().Underlying().(*types.Pointer); ok {
+				x.axiom(x.b.Not(x.b.Eq(v.T, x.b.Int(0))))
+				x.note("method receivers are assumed non-nil")
+			}
+		}
 	}
 	for _, fv := range f.FreeVars {
 		// captured variable: pointer to the variable's storage
